@@ -201,10 +201,12 @@ def _redundant_relation(lex: lmf.Lexicon, ids: _Ids) -> _Result:
 
 def _missing_reverse_relation(lex: lmf.Lexicon, ids: _Ids) -> _Result:
     """reverse relation is missing"""
-    regular = {(s['id'], r['relType'], r['target'])
+    # a dict is used as an ordered set so the report does not depend
+    # on set iteration order
+    regular = {(s['id'], r['relType'], r['target']): True
                for s, r in _sense_relations(lex)
                if r['target'] in ids['sense']}
-    regular.update((ss['id'], r['relType'], r['target'])
+    regular.update(((ss['id'], r['relType'], r['target']), True)
                    for ss, r in _synset_relations(lex))
     return {tgt: {'type': REVERSE_RELATIONS[typ], 'target': src}
             for src, typ, tgt in regular
